@@ -81,6 +81,7 @@ func (r *ReceivedMessageReader[C]) loop(loopDone chan struct{}, readingMessages 
 			// closed loopDone and a readable queue and two loops would consume the queue concurrently.
 			select {
 			case <-loopDone:
+				verifYield(r, "exit")
 				return
 			default:
 			}
